@@ -190,6 +190,16 @@ func execParse(entry string, data, spare []byte) string {
 	// operation that touched them is the one that is blamed)
 	parseMu.Lock()
 	defer parseMu.Unlock()
+	// a relative first: the same length and the same first twelve bytes, everything after them complemented (a result
+	// remembered under too short a key would be handed out for this input)
+	if len(data) > 12 {
+		tw := append([]byte{}, data...)
+		for i := 12; i < len(tw); i++ {
+			tw[i] ^= 0xFF
+		}
+		_ = guarded(func() string { return f(withSpare(tw, nil)) })
+		sentinelsTouched()
+	}
 	a := guarded(func() string { return f(withSpare(data, nil)) })
 	if sentinelsTouched() {
 		a += " SENTINEL-MUTATED"
@@ -531,6 +541,11 @@ func execIscoil(fc string, data []byte, start, addr uint16) string {
 
 func execErrbytes(ts []string) string {
 	tid, unit, fc, code := uint16(atoi(ts[1])), uint8(atoi(ts[2])), uint8(atoi(ts[3])), uint8(atoi(ts[4]))
+	// relatives first: the same unit and function with other codes (16 and 1 away)
+	for _, d := range []uint8{0x10, 0x01, 0x80} {
+		_ = packet.ErrorResponseTCP{TransactionID: tid, UnitID: unit, Function: fc, Code: code ^ d}.Bytes()
+		_ = packet.ErrorResponseRTU{UnitID: unit, Function: fc, Code: code ^ d}.Bytes()
+	}
 	if ts[0] == "t" {
 		return hx(packet.ErrorResponseTCP{TransactionID: tid, UnitID: unit, Function: fc, Code: code}.Bytes())
 	}
